@@ -1,5 +1,8 @@
-"""Translator unit `orders` -> Gen/Orders.lean (C10): every atomic access to `_head`/`_tail` in both ring classes of
-include/iora/core/ring_buffer.hpp as (class, method#overload, variable, load|store, memory order), in textual order."""
+"""Translator unit `orders` -> Gen/Orders.lean (C10): every atomic access to `_head`/`_tail` AND every access to the slot array
+`_buffer` in both ring classes of include/iora/core/ring_buffer.hpp, per method and in SOURCE ORDER, as
+(class, method#overload, variable, load|store|read|write|assign, memory order | plain).  The Lean obligation `C10_orders`
+pins the exact event sequence of every method (counter loads, then slot accesses, then one store of the own counter) and the
+orders; any member function the unit does not know is a broken tie."""
 import re
 import cxxscan
 from translate import TranslateError, HEADER, read
@@ -8,6 +11,9 @@ FILE = "include/iora/core/ring_buffer.hpp"
 CLASSES = ["RingBuffer", "DynamicRingBuffer"]
 METHODS = [("tryPush", 2), ("tryPop", 1), ("peek", 1), ("tryPushBatch", 1), ("tryPopBatch", 1), ("size", 1), ("clear", 1)]
 DYN_ONLY = [("resize", 1)]
+# member functions without any access to the counters or the slots (checked), and special members
+PURE = {"empty", "full", "capacity", "nextPowerOfTwo"}
+STATE = ["_head", "_tail", "_buffer", "_capacity", "_mask"]
 ORDERS = {"relaxed", "consume", "acquire", "release", "acq_rel", "seq_cst"}
 
 
@@ -20,11 +26,11 @@ def class_body(src, name):
 
 
 def accesses(body, where):
+    """Events on _head/_tail/_buffer in source order: (position, var, kind, order)."""
     out = []
-    covered = []
+    covered = set()
     for m in re.finditer(r"\b(_head|_tail)\s*\.\s*(\w+)\s*\(", body):
         var, fn = m.group(1), m.group(2)
-        # argument list
         i = m.end() - 1
         depth = 0
         j = i
@@ -51,13 +57,40 @@ def accesses(body, where):
             order = "seq_cst"
         if order not in ORDERS:
             raise TranslateError("%s: unknown memory order %s" % (where, order))
-        out.append((var, fn, order))
-        covered.append((m.start(), m.start() + len(var)))
-    # any other mention of the counters (implicit conversion, ++, =, fetch_add through a reference ...) is an unrecognised shape
+        out.append((m.start(), var, fn, order))
+        covered.add(m.start())
     for m in re.finditer(r"\b(_head|_tail)\b", body):
-        if not any(a == m.start() for a, _ in covered):
+        if m.start() not in covered:
             raise TranslateError("%s: access to %s that is not .load()/.store(): %r" % (where, m.group(1), body[max(0, m.start() - 20):m.end() + 20].strip()))
-    return out
+    # slot array: `_buffer[expr] = ...` is a write, `_buffer[expr]` elsewhere a read, `_buffer = ...` replaces the array (resize)
+    for m in re.finditer(r"\b_buffer\b", body):
+        k = m.end()
+        while k < len(body) and body[k] in " \t\r\n":
+            k += 1
+        if k < len(body) and body[k] == "[":
+            depth = 0
+            j = k
+            while j < len(body):
+                if body[j] == "[":
+                    depth += 1
+                elif body[j] == "]":
+                    depth -= 1
+                    if depth == 0:
+                        break
+                j += 1
+            r = j + 1
+            while r < len(body) and body[r] in " \t\r\n":
+                r += 1
+            is_write = r < len(body) and body[r] == "=" and body[r:r + 2] != "=="
+            if r < len(body) and re.match(r"(\+=|-=|\*=|/=|\|=|&=|\^=|\+\+|--|\.)", body[r:]):
+                raise TranslateError("%s: compound access to a slot: %r" % (where, body[m.start():r + 3]))
+            out.append((m.start(), "_buffer", "write" if is_write else "read", "plain"))
+        elif k < len(body) and body[k] == "=" and body[k:k + 2] != "==":
+            out.append((m.start(), "_buffer", "assign", "plain"))
+        else:
+            raise TranslateError("%s: use of _buffer in a shape the scanner does not know: %r" % (where, body[max(0, m.start() - 20):m.end() + 20].strip()))
+    out.sort()
+    return [(v, f, o) for _, v, f, o in out]
 
 
 def gen(repo):
@@ -81,18 +114,32 @@ def gen(repo):
                 pass
             else:
                 raise TranslateError("%s::%s has more than %d overload(s)" % (cls, name, count))
-        # methods touching the counters that the unit does not know
+        # every member function of the class must be known: a new method is a broken tie (it may touch the state from any thread)
         known = {n for n, _ in METHODS + DYN_ONLY}
-        for m in re.finditer(r"\b(\w+)\s*\([^()]*\)\s*(?:const\s*)?(?:noexcept\s*(?:\([^{};]*\))?\s*)?\{", cb):
+        for m in re.finditer(r"(?<![\w~:.>])(~?\w+)\s*\([^()]*\)\s*(?:const\s*)?(?:noexcept\s*(?:\([^{};]*\))?\s*)?(?::[^{};]*)?\{", cb):
             fname = m.group(1)
-            if fname in known or fname in ("if", "for", "while", "switch", "RingBuffer", "DynamicRingBuffer"):
+            if fname in ("if", "for", "while", "switch", "catch", "return", "sizeof"):
+                continue
+            if fname in known:
                 continue
             end = cxxscan.match_brace(cb, m.end() - 1)
-            if re.search(r"\b(_head|_tail)\b", cb[m.end():end]):
-                raise TranslateError("%s::%s touches _head/_tail but is not a known method" % (cls, fname))
+            fb = cb[m.end():end]
+            if fname in (cls, "~" + cls):
+                continue        # constructors: run before the object is shared
+            if fname in PURE:
+                if re.search(r"\b(_head|_tail|_buffer)\b", fb) or re.search(r"\b(_capacity|_mask)\s*(=(?!=)|\+\+|--|\+=|-=)", fb):
+                    raise TranslateError("%s::%s is expected not to touch the counters/slots and not to write _capacity/_mask" % (cls, fname))
+                continue
+            raise TranslateError("%s::%s is not a known member function of the ring (every method must be part of the model)" % (cls, fname))
+        # _capacity/_mask are written only by resize (dynamic class)
+        for name, count in METHODS:
+            for k in range(count):
+                fb = cxxscan.function_body(cb, name, nth=k)
+                if re.search(r"\b(_capacity|_mask)\s*(=(?!=)|\+\+|--|\+=|-=)", fb):
+                    raise TranslateError("%s::%s writes _capacity/_mask" % (cls, name))
     t = HEADER % FILE
     t += "namespace Iora.Gen.Orders\n"
-    t += "/-- every atomic access to the ring counters: (class, method#overload, variable, load|store, memory order), textual order -/\n"
+    t += "/-- every access to the ring counters and to the slot array, per method in source order:\n(class, method#overload, variable, load|store|read|write|assign, memory order or `plain`) -/\n"
     t += "def ring : List (String × String × String × String × String) := [\n"
     t += ",\n".join('  ("%s", "%s", "%s", "%s", "%s")' % r for r in rows)
     t += "]\nend Iora.Gen.Orders\n"
